@@ -73,6 +73,16 @@ var c19ExprefForms = []string{
 	"let $k = k in group_by(b, &[t, $k][0])",
 	"let $k = k in b[*].[max_by(@.c, &[s, $k][0]), $k]",
 	"let $k = k in max_by(b, &(let $j = s in [$j, $k][0]))",
+	// a let whose bindings only mention other variables, evaluated once per element
+	"map(&(let $v = @ in (let $w = $v in $w.s)), b)",
+	"b[*].[let $v = s in (let $w = $v in $w)]",
+	"b[?(let $v = s in (let $w = $v, $c = `1` in $w)) != b[0].s].t",
+	"sort_by(b, &(let $v = @ in (let $w = $v in $w.s)))[*].t",
+	// bindings end with the body of their let
+	"let $x = k in [let $y = b in $y[0].s, $y]",
+	"let $x = k, $z = k in let $x = b in [let $z = `1` in $z, $z, $x[0].s]",
+	"let $x = k in b[*].[let $y = s in $y, $x] | [[1][0], $y]",
+	"b[*].[let $y = s in $y][] | [@, let $x = k in $x, $x]",
 }
 
 var c19Perms = [][3]int{{0, 1, 2}, {0, 2, 1}, {1, 0, 2}, {1, 2, 0}, {2, 0, 1}, {2, 1, 0}}
